@@ -9,9 +9,9 @@ cd "$wt" || exit 2
 git checkout -q -- . ; git status --short | grep -v '^??' && { echo "worktree dirty"; exit 2; }
 git apply "$d/patch.diff" || { echo "patch does not apply"; exit 3; }
 tests=$(cargo test --workspace --offline 2>&1 | grep -E "^test result: ok\. 32 passed" | wc -l)
-( cd "$wt" && sh "$d/demo.sh" >/tmp/demo_with.log 2>&1 ); with=$?
+( cd "$wt" && bash "$d/demo.sh" >/tmp/demo_with.log 2>&1 ); with=$?
 git checkout -q -- . ; git clean -fdq -- zeep-lib/tests zeep-lib/examples 2>/dev/null
-( cd "$wt" && sh "$d/demo.sh" >/tmp/demo_without.log 2>&1 ); without=$?
+( cd "$wt" && bash "$d/demo.sh" >/tmp/demo_without.log 2>&1 ); without=$?
 git checkout -q -- . ; git clean -fdq -- zeep-lib/tests zeep-lib/examples 2>/dev/null
 echo "$name: tests32=$tests demo_with_change_exit=$with demo_clean_exit=$without"
 if [ "$tests" = "1" ] && [ "$with" != "0" ] && [ "$without" = "0" ]; then
